@@ -14,6 +14,9 @@ SMOOTHER_GETTERS = {"get_smoother_pre": "pre", "get_smoother_post": "post", "get
                     "get_coarse_solver": "coarse"}
 HELPERS = ("_apply_rest", "_apply_prol", "_apply_smooth_peak", "_apply_smooth_def", "_apply_coarse",
            "_apply_cycle_v", "_apply_cycle_f", "_apply_cycle_w")
+# number of parameters of the modelled helpers; an overload with another arity (a forwarding sibling) is not the event
+HELPER_ARITY = {"_apply_rest": 2, "_apply_prol": 2, "_apply_smooth_peak": 1, "_apply_smooth_def": 2, "_apply_coarse": 0,
+                "_apply_cycle_v": 0, "_apply_cycle_f": 0, "_apply_cycle_w": 0}
 
 
 def is_this_member(n, name=None):
@@ -24,9 +27,13 @@ def is_this_member(n, name=None):
 class MGView(FnView):
     """FnView + level/role resolution"""
 
-    def __init__(self, fn):
+    def __init__(self, fn, derived=None):
         super().__init__(fn)
         self.unknown = []       # constructs that could not be resolved (-> analysis incomplete)
+        # members of the solver that cache a value computed from its configuration fields:
+        # name -> (MGView of the defining function, defining expression); such a member denotes what it caches
+        # (whether the cache is kept coherent is decided by rule E8.config-cache)
+        self.derived = derived or {}
 
     # ---- level expressions ----------------------------------------------------------------------
     def is_last(self, n):
@@ -43,6 +50,13 @@ class MGView(FnView):
         """normal form of a level index expression: ('top',k) | ('crs',k) | ('last',k) | ('abs',k) | ('v', decl, k) | None"""
         n = self.value(n)
         k = n.get("k")
+        if is_this_member(n) and n.get("n") in self.derived and getattr(self, "_in_derived", 0) < 3:
+            dv, dexpr = self.derived[n["n"]]
+            dv._in_derived = getattr(self, "_in_derived", 0) + 1
+            try:
+                return dv.level(dexpr)
+            finally:
+                dv._in_derived = 0
         if is_this_member(n, "_top_level"):
             return ("top", 0)
         if is_this_member(n, "_crs_level"):
@@ -189,6 +203,8 @@ def classify(view, sid):
         recv = view.obj(n.get("obj")) if n.get("obj") is not None else None
         thisrecv = n.get("obj") is None or strip(n.get("obj")).get("k") == "This"
         av = args_by_name(n)
+        if thisrecv and nm in HELPERS and len(n.get("a", [])) != HELPER_ARITY[nm]:
+            return {"kind": "unknown", "n": n, "why": "call of the overload %s/%d, which is not the modelled helper" % (nm, len(n.get("a", [])))}
         if thisrecv and nm in HELPERS:
             a = n.get("a", [])
             ev = {"kind": "helper", "helper": nm, "n": n}
